@@ -359,6 +359,10 @@ func runC25(c *core.Ctx) {
 			o, s := c25Run(cfg, cs)
 			return core.Exec{Sched: s, Outcome: fmt.Sprintf("schedule-level %s healthy-served=%v", cs.Side, o.healthyDone), Viol: c25Judge(cs, o)}
 		})
+		c.ExploreSlow(cs, vsched.Config{}, []int{0}, func(cfg vsched.Config) core.Exec {
+			o, s := c25Run(cfg, cs)
+			return core.Exec{Sched: s, Outcome: fmt.Sprintf("%s healthy-served=%v", cs.Side, o.healthyDone), Viol: c25Judge(cs, o)}
+		})
 	}
 }
 
@@ -375,7 +379,7 @@ func init() {
 			var cs c25Case
 			cfg := vsched.Config{Fast: true}
 			if json.Unmarshal(raw, &w) == nil && w.Label != nil && w.Label.Side != "" {
-				cs, cfg = *w.Label, vsched.Config{Prefix: w.Prefix}
+				cs, cfg = *w.Label, core.CfgFromReplay(raw)
 			} else if err := json.Unmarshal(raw, &cs); err != nil {
 				return err.Error()
 			}
